@@ -23,6 +23,8 @@ HARMLESS_CHECKS = {
 # tools/harmless_matrix.sh runs every harmless patch against all 19 checks
 for _k in range(1, 20):
     HARMLESS_CHECKS["R2_C%02d_refactor" % _k] = sorted({"C%02d" % _k, "C19"})
+    # round 3: CORRECT performance optimisations (exact complete-key caches, hoisting, preallocation, exact early exits)
+    HARMLESS_CHECKS["R3_C%02d_optimisation" % _k] = sorted({"C%02d" % _k, "C19"})
 
 
 def _run(patch, props):
